@@ -22,9 +22,10 @@ RULE = (
     'burn, or was refused; distinct = distinct (configuration, trajectory)'
 )
 ASSUMPTIONS = [
-    'shipped sample performance model, engine database entry and conventional_jetA fuel',
+    'shipped sample performance model and engine database entry; both shipped fuels (conventional_jetA for every trajectory, SAF for the synthetic one); a second model whose LTO data are mutable containers',
+    'every case computes twice under the same loaded configuration: both computations must end the same way (same refusal, or bit-identical inventory)',
     'configuration singleton reset and re-loaded by the harness for every case',
-    'refusal must be NotImplementedError/ValueError/RuntimeError naming a selected method value',
+    'refusal must be NotImplementedError/ValueError/RuntimeError naming a selected method value (or, for a fuel without life-cycle data, the enabled lifecycle switch and the fuel)',
 ]
 
 _STATE = {}
@@ -62,6 +63,14 @@ def sublattices(tier, seed):
             'cases': [{'traj': 'syn8', 'opt': list(c), 'pm': 'scaled-lto'} for c in combos],
         }
     )
+    # the same product with the other shipped fuel (no sulfur: constant indices that are exactly 0)
+    subs.append(
+        {
+            'name': 'options x syn8 x SAF fuel',
+            'axes': {k: ec.OPTION_AXES[k] for k in keys},
+            'cases': [{'traj': 'syn8', 'opt': list(c), 'fuel': 'SAF'} for c in combos],
+        }
+    )
     return subs
 
 
@@ -88,6 +97,7 @@ def worker_init(tier, seed):
     env.load_config()
     _STATE['pm'] = ec.real_pm()
     _STATE['fuel'] = env.load_fuel('conventional_jetA')
+    _STATE['fuels'] = {'conventional_jetA': _STATE['fuel'], 'SAF': env.load_fuel('SAF')}
     _STATE['trajs'] = {k: (ec.make_traj(**v), v) for k, v in _trajs('thorough').items() if k != 'flown'}
     if tier == 'thorough':
         _STATE['trajs']['flown'] = _flown()
@@ -100,7 +110,7 @@ def _opts(case):
 
 def run_case(case):
     r = _run(case)
-    me = {k: case[k] for k in ('traj', 'opt', 'pm') if k in case}
+    me = {k: case[k] for k in ('traj', 'opt', 'pm', 'fuel') if k in case}
     if r['violations'] and _STATE.get('prev') is not None:
         # configurations evaluated earlier in this worker (the first one and the one just before):
         # needed to replay violations caused by state that survives a configuration reload (caches)
@@ -157,13 +167,14 @@ def _outcome_sig(kind, res):
 def _run(case):
     opts = _opts(case)
     traj, spec = _STATE['trajs'][case['traj']]
-    pm, fuel = _STATE['pm'], _STATE['fuel']
+    fname = case.get('fuel', 'conventional_jetA')
+    pm, fuel = _STATE['pm'], _STATE['fuels'][fname]
     if case.get('pm') == 'scaled-lto':
         pm = ec.scaled_lto_pm()  # fresh per case: the case is self-contained
-    kind, res = ec.evaluate(opts, traj, fuel, pm)
+    kind, res = ec.evaluate(opts, traj, fuel, pm, fuel_name=fname)
     vio = []
     # a second computation with the same model under the SAME loaded configuration must end the same way
-    kind2, res2 = ec.evaluate(opts, traj, fuel, pm, reload=False)
+    kind2, res2 = ec.evaluate(opts, traj, fuel, pm, fuel_name=fname, reload=False)
     if kind != 'config-raise':
         a, b = _outcome_sig(kind, res), _outcome_sig(kind2, res2)
         if a != b:
@@ -186,6 +197,9 @@ def _run(case):
     msg = str(ex).lower()
     cls = type(ex).__name__
     named = [opts[k] for k in ec.METHOD_OPTS if str(opts[k]).lower() != 'none' and str(opts[k]).lower() in msg]
+    if not named and opts.get('lifecycle_enabled') and 'lifecycle' in msg and 'fuel' in msg:
+        # a fuel without life-cycle data: the refusal names the enabled switch and the cause
+        named = ['lifecycle']
     if isinstance(ex, (NotImplementedError, ValueError, RuntimeError)) and named and kind == 'raise':
         return {'outcome': f'refused:{cls}:{named[0]}', 'nontrivial': True, 'violations': vio}
     finding = None
